@@ -325,6 +325,7 @@ struct ReplyWorld : World {
 		p.set("layer", 2);
 		p.set("idlen", r.chance(1, 8) ? 0 : r.chance(1, 10) ? r.range(5, 9) : r.range(1, 4));      // width 0: a connection without ids, everything is one-way; 9: wider than any id value
 		p.set("forge", r.chance(1, 4));
+		p.set("cframing", r.chance(1, 3) ? r.below(4) : 0);      // the connection's framing: mostly plain COBS, sometimes one of the other three
 		static const int caps[] = {5, 32, 4096, 4096};
 		p.set("chancap", r.pick(caps));
 		bool syncm = r.chance(1, 3);
@@ -362,7 +363,7 @@ struct ReplyWorld : World {
 		reply_context_detached *late = 0;    // handle of a deferred answer, held by the peer's handler
 	};
 	struct Peer { const char *name; connection *con = 0; stream *srm = 0; int fd = -1, rchan = -1, wchan = -1; std::vector<CReq> sent; };
-	struct ConnCtx { Peer peer[2]; Log *log; Stats *st; unsigned idlen; int discards[2] = {0, 0}; };
+	struct ConnCtx { Peer peer[2]; Log *log; Stats *st; unsigned idlen; int discards[2] = {0, 0}; bool zero_rich = false; };
 	static std::string answer_text(const CReq &q) { char b[32]; snprintf(b, sizeof(b), "r%u;", q.serial); return b; }
 	// reply callback registered with mpt_connection_await: arg = side << 16 | (index + 1)
 	static int conn_reply_cb(void *arg, const message *msg) {
@@ -411,7 +412,7 @@ struct ReplyWorld : World {
 		case 1: { Reenter s; mpt_context_reply(ev->reply, 0, "%s", t.c_str()); } return 0;
 		case 2: { int r1, r2; { Reenter s; r1 = mpt_context_reply(ev->reply, 0, "%s", t.c_str()); r2 = mpt_context_reply(ev->reply, 1, "%s", "again"); }
 			if (r1 >= 0 && r2 >= 0) pend("second-reply", "two explicit replies to request r%u were both accepted", q->serial); return 0; }
-		case 6: { Bytes b = {(uint8_t) msgtype::Answer, 0}; b.insert(b.end(), t.begin(), t.end()); while (b.size() < 302) b.push_back((uint8_t) ('a' + b.size() % 23));
+		case 6: { Bytes b = {(uint8_t) msgtype::Answer, 0}; b.insert(b.end(), t.begin(), t.end()); bool zr = C.zero_rich; while (b.size() < 302) b.push_back(zr && (b.size() % 3) ? 0 : (uint8_t) ('a' + b.size() % 23));      // zero-rich for the zero-pair framings: decoding needs scratch space
 			// the answer as a fragmented message: sometimes with an empty first fragment, sometimes with an empty one in the middle
 			message m; struct iovec fr[2]; m.base = b.data(); m.used = b.size(); m.cont = 0; m.clen = 0;
 			if (q->serial % 3 == 0) { m.used = 0; fr[0].iov_base = b.data(); fr[0].iov_len = b.size(); m.cont = fr; m.clen = 1; C.st->hit("probe:reply_with_empty_first_fragment"); }
@@ -425,7 +426,7 @@ struct ReplyWorld : World {
 		}
 	}
 	void exec_conn(const Plan &p, Log &log, Stats &st) {
-		ConnCtx C; C.log = &log; C.st = &st; CCp = &C;
+		ConnCtx C; C.log = &log; C.st = &st; CCp = &C; C.zero_rich = ((int) p.get("cframing") & 3) >= 2;
 		unsigned idlen = C.idlen = (unsigned) std::min<int64_t>(std::max<int64_t>(p.get("idlen", 2), 0), 9);
 		size_t chancap = (size_t) std::min<int64_t>(std::max<int64_t>(p.get("chancap", 4096), 1), 1 << 20);
 		bool use_sync = p.get("sync") != 0, big = p.get("big") != 0;
@@ -439,7 +440,7 @@ struct ReplyWorld : World {
 			void *mem; { Sut s; mem = malloc(sizeof(stream)); } P.srm = new (mem) stream();
 			int rc; { Sut s; socket sk; sk._id = P.fd; rc = mpt_stream_dopen(P.srm, &sk, stream::RdWr | stream::Buffer); sk._id = -1; }
 			if (rc < 0) fail("setup", "mpt_stream_dopen on the simulated descriptor failed");
-			P.srm->_wd._enc = mpt_message_encoder(EncodingCobs); P.srm->_rd._dec = mpt_message_decoder(EncodingCobs);
+			{ int cf = (int) p.get("cframing") & 3; P.srm->_wd._enc = encoder_for(cf); P.srm->_rd._dec = decoder_for(cf); }      // plain COBS unless the plan picks another of the four framings
 			void *cm; { Sut s; cm = calloc(1, sizeof(connection)); } P.con = (connection *) cm;
 			P.con->out.sock._id = -1; *reinterpret_cast<void **>(&P.con->out.buf) = P.srm; P.con->out._idlen = (uint8_t) idlen;
 		}
@@ -553,6 +554,12 @@ struct ReplyWorld : World {
 				check_pending();
 				int64_t waited = simio::S.now_ms - t0;
 				log.ev("SYNC %s timeout=%d -> %d after %lld ms", P.name, timeout, r, (long long) waited); outcome = r >= 0; st.hit("probe:sync");
+				if (r == E_MissingBuffer) {
+					// the stream's read buffer can grow: a complete frame in it must not end the wait with "missing buffer"
+					const decode_queue &rq = P.srm->_rd; bool complete = false;
+					for (size_t i = rq._state.curr; i < rq.len; ++i) if (!((const uint8_t *) rq.base)[(rq.off + i) % rq.max]) { complete = true; break; }
+					if (complete) fail("no-reply", "sync ends with 'missing buffer' (%d) although the rest of the reply frame is in the growable read buffer (%zu of %zu bytes used)", r, rq.len, rq.max);
+				}
 				if (waited > timeout) fail("overslept", "sync with a timeout of %d ms waited %lld ms", timeout, (long long) waited);
 				if (simio::S.poll_block_forever != forever0) fail("blocks-forever", "sync with a timeout of %d ms polled without timeout while nothing can arrive", timeout);
 				if (waited) st.hit("probe:sync_timed_out");
